@@ -107,6 +107,8 @@ pub struct Model {
     pub mem_limit: Option<u64>,
     /// size of the record most recently written (C14 bound)
     pub last_written: u64,
+    /// item size limit of the connection (requests with a larger body must be answered 0x03)
+    pub item_limit: Option<u32>,
 }
 
 /// Which properties own a clause.
@@ -133,6 +135,7 @@ pub fn owners(clause: &str) -> &'static [&'static str] {
         "one-response" => &["C11", "C12"],
         "quiet-silent" | "quiet-error-loud" | "quiet-hit-loud" => &["C12", "C19"],
         "over-limit" | "own-record-evicted" => &["C14"],
+        "too-large" => &["C13", "C11"],
         "live-item-lost" | "usage-drift" | "usage-nonzero-empty" => &["C15"],
         _ => &[],
     }
@@ -193,7 +196,7 @@ pub fn classify_number(text: &[u8]) -> Num {
 
 impl Model {
     pub fn new(evict: Evict, mem_limit: Option<u64>) -> Model {
-        Model { now: 0, keys: BTreeMap::new(), evict, mem_limit, last_written: 0 }
+        Model { now: 0, keys: BTreeMap::new(), evict, mem_limit, last_written: 0, item_limit: None }
     }
 
     pub fn key_info(&self, key: &[u8]) -> KeyInfo {
